@@ -45,7 +45,7 @@ PURE_FUNCS = {
     'reversed': reversed, 'slice': slice, 'bool': bool, 'float': float, 'frozenset': frozenset, 'iter': iter, 'object': object,
     'itertools.product': itertools.product, 'product': itertools.product, 'str.maketrans': str.maketrans,
     'itertools.combinations': itertools.combinations, 'combinations': itertools.combinations, 'itertools.permutations': itertools.permutations,
-    'itertools.chain': itertools.chain, 'chain': itertools.chain, 'itertools.combinations_with_replacement': itertools.combinations_with_replacement,
+    'itertools.chain': itertools.chain, 'chain': itertools.chain, 'itertools.count': itertools.count, 'count': itertools.count, 'itertools.combinations_with_replacement': itertools.combinations_with_replacement,
     'divmod': divmod, 'round': round, 'isinstance': None, 'next': None,
     're.compile': re.compile, 're.split': re.split, 're.sub': re.sub, 're.escape': re.escape,
     'collections.defaultdict': collections.defaultdict, 'defaultdict': collections.defaultdict, 'collections.Counter': collections.Counter, 'Counter': collections.Counter,
